@@ -167,6 +167,13 @@ func Corpus() []*Scenario {
 	out = append(out, &Scenario{Name: "corpus/fresh-input-in-retry-window", Brokers: 1, Partitions: 1, Topics: []string{"t0"}, RetryMax: 2, V2: true,
 		Msgs:   []MsgSpec{two(1), two(2), {ID: 3, Topic: "t0", Choice: 0, Wave: 1}, {ID: 4, Topic: "t0", Choice: 0, Wave: 1}},
 		Script: []Fault{{Kind: Retriable, Err: 6, Only: -1}, {Kind: Retriable, Err: 7, Only: -1}}, Holds: []HoldSpec{{Kind: "pp.newHWM", Nth: 1}}})
+	// nested retry levels: the chaser of level 1 is held in the old broker worker until the message bounced again
+	// (partition worker at level 2), so it comes back as a fin of a LOWER level
+	out = append(out, &Scenario{Name: "corpus/lower-level-fin", Brokers: 1, Partitions: 1, Topics: []string{"t0"}, RetryMax: 2, V2: true,
+		Msgs:   []MsgSpec{two(1), two(2)},
+		Script: []Fault{{Kind: Retriable, Err: 6, Only: -1}, {Kind: Retriable, Err: 6, Only: -1}, {Kind: Retriable, Err: 7, Only: -1}},
+		Holds: []HoldSpec{{Kind: "bp.recv", Nth: 1, Fin: true, Until: "pp.newHWM", UntilNth: 2},
+			{Kind: "bp.recv", Nth: 2, Fin: true, Until: "pp.recv", UntilNth: 1, UntilFin: true}}})
 	// connection drop, leader move, metadata failure
 	out = append(out, &Scenario{Name: "corpus/drop-and-move", Brokers: 2, Partitions: 2, Topics: []string{"t0"}, RetryMax: 2, V2: true, FlushMsgs: 2,
 		Msgs:   []MsgSpec{two(1), {ID: 2, Topic: "t0", Choice: 1}, two(3), {ID: 4, Topic: "t0", Choice: 1}, two(5)},
